@@ -68,12 +68,60 @@ theorem hashChunks_eq {σ : Type} (upd : σ → Bytes → σ)
   unfold hashChunks
   rw [foldl_update_flatten upd hs h0, chunks_flatten' n hn]
 
+/-- the loop of `hashsum` (block size read again in every iteration) feeds the whole content -/
+theorem readLoop_eq {σ : Type} (hl : HashLib σ) (h : Streaming hl) :
+    ∀ (fuel : Nat) (bs : Bytes) (s : σ), bs.length < fuel → readLoop hl fuel bs s = hl.update s bs := by
+  intro fuel
+  induction fuel with
+  | zero => intro bs s hl'; omega
+  | succ f ih =>
+    intro bs s hlt
+    unfold readLoop
+    simp only
+    split_ifs with he
+    · have hpos := h.block_pos s
+      have : bs = [] := by
+        cases bs with
+        | nil => rfl
+        | cons b r =>
+          cases hn : hl.blockSize s with
+          | zero => omega
+          | succ m => rw [hn] at he; simp at he
+      rw [this, h.empty]
+    · have hne : bs ≠ [] := by
+        intro h0; subst h0; simp at he
+      have hlen : 0 < bs.length := List.length_pos_iff.mpr hne
+      have hpos := h.block_pos s
+      rw [ih _ _ (by simp; omega), h.append, List.take_append_drop]
+
+/-- with a constant block size (as for every `hashlib` object) the loop is the fold over
+`chunks` -/
+theorem readLoop_eq_hashChunksAux {σ : Type} (hl : HashLib σ)
+    (hc : ∀ s c, hl.blockSize (hl.update s c) = hl.blockSize s) :
+    ∀ (fuel : Nat) (bs : Bytes) (s : σ),
+      readLoop hl fuel bs s = (chunksAux (hl.blockSize s) fuel bs).foldl hl.update s := by
+  intro fuel
+  induction fuel with
+  | zero => intro bs s; rfl
+  | succ f ih =>
+    intro bs s
+    unfold readLoop chunksAux
+    simp only
+    split_ifs with he
+    · rfl
+    · rw [ih, hc, List.foldl_cons]
+
+theorem readLoop_eq_hashChunks {σ : Type} (hl : HashLib σ)
+    (hc : ∀ s c, hl.blockSize (hl.update s c) = hl.blockSize s) (bs : Bytes) (s : σ) :
+    readLoop hl (bs.length + 1) bs s = hashChunks hl.update s (hl.blockSize s) bs :=
+  readLoop_eq_hashChunksAux hl hc _ bs s
+
 theorem hashsum_eq_oneShot {σ : Type} (hl : HashLib σ) (h : Streaming hl) (alg : Str)
     (ha : alg ∈ hashAlgs) (bs : Bytes) : hashsum hl bs alg = .ok (oneShot hl alg bs) := by
   unfold hashsum oneShot
   rw [if_pos ha]
   simp only
-  rw [hashChunks_eq hl.update h.append h.empty _ _ (h.block_pos _)]
+  rw [readLoop_eq hl h _ _ _ (Nat.lt_succ_self _)]
 
 theorem hashsum_unsupported {σ : Type} (hl : HashLib σ) (alg : Str) (ha : alg ∉ hashAlgs)
     (bs : Bytes) : hashsum hl bs alg = .error .valueError := by
